@@ -223,6 +223,8 @@ class Family:
     def _render_td(self, d):
         def ft(f):
             s = tast.render(f["t"])
+            if f.get("ro"):
+                s = f"ReadOnly[{s}]"        # a qualifier without effect on requiredness or conversion
             if f.get("q"):
                 s = f"{f['q']}[{s}]"
             return s
